@@ -58,6 +58,9 @@ func gen(g *mon.Gen) {
 	for i := 0; i < g.Pick(6, 60); i++ {
 		g.Emit(&Case{Mask: 3, Seed: rng.Int63(), K: 2, Terminal: []string{"tcp-shutdown", "tcp-cancel"}[i%2]})
 	}
+	for i := 0; i < g.Pick(12, 200); i++ {
+		g.Emit(&Case{Mask: i % 4, Seed: rng.Int63(), K: 0, Terminal: "shutdown-at-start"})
+	}
 	per := g.Pick(6, 200)
 	for mask := 0; mask < 16; mask++ {
 		for i := 0; i < per; i++ {
@@ -187,11 +190,89 @@ func runTCP(c *Case, r *mon.Rec, rng *rand.Rand) {
 	r.Cover("tcp", c.Terminal)
 }
 
+// runAtStart: Shutdown overlaps the start of Serve (called from inside OnServeFunc, or from another goroutine right
+// away). If it returns nil the serve call must end with ErrServerClosed and nothing may be accepted afterwards.
+func runAtStart(c *Case, r *mon.Rec, rng *rand.Rand) {
+	l := srvx.NewMemListener()
+	s := &server.Server{OnErrorFunc: func(error) {}}
+	dev := simdev.New(uint64(c.Seed), "srv")
+	var shutErr error
+	shutDone := make(chan struct{})
+	doShutdown := func() {
+		sctx, sc := context.WithTimeout(context.Background(), 3*time.Second)
+		shutErr = s.Shutdown(sctx)
+		sc()
+		close(shutDone)
+	}
+	inCallback := c.Mask&1 != 0
+	if inCallback {
+		s.OnServeFunc = func(net.Addr) { doShutdown() }
+	}
+	ctx, cancel := context.WithCancel(context.Background())
+	defer cancel()
+	served := make(chan error, 1)
+	go func() { served <- s.Serve(ctx, l, srvx.DevHandler(dev, nil)) }()
+	if !inCallback {
+		if d := rng.Intn(4); d > 0 {
+			time.Sleep(time.Duration(d*30) * time.Microsecond)
+		}
+		go doShutdown()
+	}
+	select {
+	case <-shutDone:
+	case <-time.After(5 * time.Second):
+		r.Violate(c, "shutdown-does-not-return", mon.Attrs{"at_start": true}, "Shutdown overlapping the start of Serve did not return within 5 s")
+		return
+	}
+	r.Eval(1)
+	r.Distinct(mon.Mix(0x5a7, uint64(c.Seed), b2u(inCallback)))
+	r.Cover("terminal", c.Terminal)
+	if shutErr != nil {
+		r.Cover("shutdown", "at-start-error:"+shutErr.Error())
+		return
+	}
+	a := mon.Attrs{"terminal": c.Terminal, "in_onserve": inCallback}
+	select {
+	case err := <-served:
+		if !errors.Is(err, server.ErrServerClosed) {
+			r.Violate(c, "serve-wrong-error-after-shutdown", a, fmt.Sprintf("Shutdown (overlapping the start of Serve) returned nil, Serve returned %v", err))
+		}
+	case <-time.After(2 * time.Second):
+		// state witness: is the server still taking connections and answering?
+		cli, _, derr := l.Dial(500 * time.Millisecond)
+		answered := false
+		if cli != nil {
+			q := specref.Req{FC: 3, Unit: 1, TID: 7, Addr: 1, Qty: 1}
+			cli.Write(q.Encode(specref.TCP))
+			rep, _ := srvx.ReadN(cli, 11, time.Second)
+			answered = len(rep) == 11
+			cli.Close()
+		}
+		r.Violate(c, "serve-does-not-return", a, fmt.Sprintf("Shutdown (overlapping the start of Serve) returned nil but Serve was still running 2 s later; new connection: dial err=%v, request answered=%v; listener Close calls: %d", derr, answered, l.Closes.Load()))
+		return
+	}
+	if cli, _, err := l.Dial(300 * time.Millisecond); err == nil {
+		cli.Close()
+		r.Violate(c, "accepts-after-shutdown", a, "a connection was accepted after Shutdown returned nil and Serve returned")
+	}
+}
+
+func b2u(b bool) uint64 {
+	if b {
+		return 1
+	}
+	return 0
+}
+
 func run(ci any, r *mon.Rec) {
 	c := ci.(*Case)
 	rng := rand.New(rand.NewSource(c.Seed))
 	if c.Terminal == "tcp-shutdown" || c.Terminal == "tcp-cancel" {
 		runTCP(c, r, rng)
+		return
+	}
+	if c.Terminal == "shutdown-at-start" {
+		runAtStart(c, r, rng)
 		return
 	}
 	sc := &scenario{c: c, r: r, l: srvx.NewMemListener(), hstart: map[uint16]int64{}, hend: map[uint16]int64{}, rejected: map[string]bool{}, inflight: make(chan struct{}, 64), hdone: make(chan struct{}, 64)}
